@@ -13,6 +13,8 @@
 (***************************************************************************)
 EXTENDS BlockLifecycle, TLC, Json, IOUtils, SequencesExt
 CONSTANTS MaxBlocks, NSrc, NGrp, Workers,
+          FullGrpBlocks,   \* inputs with more blocks than this are explored within ONE group only (groups are
+                           \* filtered independently; keeps the thorough state space in budget)
           CaseBlocks       \* leg B: cases have 1..CaseBlocks blocks
 
 SrcSets == (SUBSET (1..NSrc)) \ {{}}
@@ -30,7 +32,7 @@ Idle == [g |-> 0, rest |-> {}, cover |-> {}, dups |-> {}, st |-> "idle"]
 
 BlockSets(n) == { { [id |-> i, src |-> f[i][1], grp |-> f[i][2]] : i \in 1..n } : f \in [1..n -> SrcSets \X Groups] }
 (* group names are interchangeable: block 1 is put into group 1 *)
-Init == /\ \E n \in 1..MaxBlocks : all \in { S \in BlockSets(n) : \A b \in S : b.id = 1 => b.grp = 1 }
+Init == /\ \E n \in 1..MaxBlocks : all \in { S \in BlockSets(n) : \A b \in S : (b.id = 1 \/ n > FullGrpBlocks) => b.grp = 1 }
         /\ expect = AlgoDedupKeptIds(all)
         /\ metas = { b.id : b \in all }
         /\ pending = { b.grp : b \in all }
